@@ -532,4 +532,171 @@ theorem setter_histories (hist : List (Setter × List Int)) : ∀ t : Int, Good 
     · simp only [List.map_cons, liftS, liftM, Spec.runSetters, runSetters, hspec, hstep]
       rw [hf2]
 
+-- ---------------------------------------------------------------- ISO-8601 strings
+
+theorem digits_zero (w : Nat) : Spec.digits w 0 = List.replicate w 48 := by
+  induction w with
+  | zero => rfl
+  | succ w ih => simp [Spec.digits, ih, List.replicate_succ']
+
+theorem digits_length (w n : Nat) : (Spec.digits w n).length = w := by
+  induction w generalizing n with
+  | zero => rfl
+  | succ w ih => simp [Spec.digits, ih]
+
+theorem natDigits_length_pos (f n : Nat) : 1 ≤ (natDigits (f + 1) n).length := by
+  unfold natDigits; split <;> simp
+
+theorem pad_natDigits (w : Nat) : ∀ (f n : Nat), 1 ≤ w → w ≤ f → n < 10 ^ w →
+    List.replicate (w - (natDigits f n).length) 48 ++ natDigits f n = Spec.digits w n := by
+  induction w with
+  | zero => intro f n h; omega
+  | succ w ih =>
+    intro f n _ hf hn
+    obtain ⟨f', rfl⟩ : ∃ f', f = f' + 1 := ⟨f - 1, by omega⟩
+    by_cases h10 : n < 10
+    · have e1 : n / 10 = 0 := by omega
+      have e2 : n % 10 = n := by omega
+      simp [natDigits, h10, Spec.digits, e1, e2, digits_zero]
+    · have hlen : (natDigits (f' + 1) n).length = (natDigits f' (n / 10)).length + 1 := by
+        simp [natDigits, h10]
+      have hw : 1 ≤ w := by
+        rcases Nat.eq_zero_or_pos w with h | h
+        · subst h; simp at hn; omega
+        · exact h
+      have hn' : n / 10 < 10 ^ w := by
+        rw [Nat.pow_succ] at hn; omega
+      have := ih f' (n / 10) hw (by omega) hn'
+      rw [hlen, show w + 1 - ((natDigits f' (n / 10)).length + 1) = w - (natDigits f' (n / 10)).length by omega]
+      simp only [natDigits, h10, if_false, Spec.digits]
+      rw [← List.append_assoc, this]
+
+theorem goAppendInt_nonneg (x : Int) (w : Nat) (h0 : 0 ≤ x) (hw : 1 ≤ w) (hw25 : w ≤ 25) (h1 : x.toNat < 10 ^ w) :
+    goAppendInt x w = Spec.digits w x.toNat := by
+  unfold goAppendInt
+  have : ¬ x < 0 := by omega
+  simp only [this, if_false, List.nil_append]
+  rw [show x.natAbs = x.toNat by omega]
+  exact pad_natDigits w 25 x.toNat hw hw25 h1
+
+theorem digits_mul10 (w n : Nat) : Spec.digits (w + 1) (10 * n) = Spec.digits w n ++ [48] := by
+  simp [Spec.digits]
+
+theorem app9 (x : Int) (h0 : 0 ≤ x) (h1 : x ≤ 999) : (goAppendInt (x * 1000000) 9).take 3 = Spec.digits 3 x.toNat := by
+  rw [goAppendInt_nonneg (x * 1000000) 9 (by omega) (by omega) (by omega) (by omega)]
+  rw [show (x * 1000000).toNat = 10 * (10 * (10 * (10 * (10 * (10 * x.toNat))))) by omega]
+  simp only [digits_mul10, List.append_assoc]
+  rw [List.take_append_of_le_length (by simp [digits_length])]
+  exact List.take_of_length_le (by simp [digits_length])
+
+theorem isLeap_flag (t : Int) : goIsLeap (Spec.YearFromTime t) = decide (Spec.InLeapYear t = 1) := by
+  unfold Spec.InLeapYear
+  by_cases hc : Spec.DaysInYear (Spec.YearFromTime t) = 366
+  · simp [hc, (goIsLeap_iff _).2 hc]
+  · have : goIsLeap (Spec.YearFromTime t) = false := by
+      cases hh : goIsLeap (Spec.YearFromTime t) with
+      | false => rfl
+      | true => exact absurd ((goIsLeap_iff _).1 hh) hc
+    simp [hc, this]
+
+theorem field_ranges (t : Int) :
+    (0 ≤ Spec.MonthFromTime t ∧ Spec.MonthFromTime t ≤ 11) ∧ (1 ≤ Spec.DateFromTime t ∧ Spec.DateFromTime t ≤ 31) ∧
+    (0 ≤ Spec.WeekDay t ∧ Spec.WeekDay t ≤ 6) ∧ (0 ≤ Spec.HourFromTime t ∧ Spec.HourFromTime t ≤ 23) ∧
+    (0 ≤ Spec.MinFromTime t ∧ Spec.MinFromTime t ≤ 59) ∧ (0 ≤ Spec.SecFromTime t ∧ Spec.SecFromTime t ≤ 59) ∧
+    (0 ≤ Spec.msFromTime t ∧ Spec.msFromTime t ≤ 999) := by
+  have hm := monthFromTime_range t
+  have hr := dayWithinYear_range t
+  have hl := inLeapYear_01 t
+  refine ⟨hm, ?_, ?_, ?_, ?_, ?_, ?_⟩
+  · rw [dateFromTime_eq]
+    have hmo : Spec.MonthFromTime t = monthOf (Spec.DayWithinYear t) (Spec.InLeapYear t) := rfl
+    generalize Spec.MonthFromTime t = m at *
+    generalize Spec.DayWithinYear t = d at *
+    generalize Spec.InLeapYear t = l at *
+    subst hmo
+    unfold monthOf
+    repeat' split
+    all_goals (simp only [Spec.monthStart]; omega)
+  all_goals (simp only [Spec.WeekDay, Spec.HourFromTime, Spec.MinFromTime, Spec.SecFromTime, Spec.msFromTime]; omega)
+
+/-- toISOString of a valid date with a four-digit year is the §15.9.1.15 string -/
+theorem iso_format_eq (t : Int) (hy0 : 0 ≤ Spec.YearFromTime t) (hy1 : Spec.YearFromTime t ≤ 9999) :
+    goFormatISO (stateTime t) = Spec.isoString t := by
+  have hd := goAbsDate_eq _ _ (sameDay_state t)
+  have hm := monthFromTime_range t
+  unfold goFormatISO Spec.isoString
+  simp only [goYear, goMonth, goDay, hd, goHour_state, goMinute_state, goSecond_state]
+  obtain ⟨_, hdt, _, hh, hmi, hs, hms⟩ := field_ranges t
+  have ens : (stateTime t).nsec = Spec.msFromTime t * 1000000 := rfl
+  rw [goAppendInt_nonneg _ 4 hy0 (by omega) (by omega) (by omega),
+      goAppendInt_nonneg (Spec.MonthFromTime t + 1) 2 (by omega) (by omega) (by omega) (by omega),
+      goAppendInt_nonneg (Spec.DateFromTime t) 2 (by omega) (by omega) (by omega) (by omega),
+      goAppendInt_nonneg (Spec.HourFromTime t) 2 (by omega) (by omega) (by omega) (by omega),
+      goAppendInt_nonneg (Spec.MinFromTime t) 2 (by omega) (by omega) (by omega) (by omega),
+      goAppendInt_nonneg (Spec.SecFromTime t) 2 (by omega) (by omega) (by omega) (by omega),
+      ens, app9 _ hms.1 hms.2]
+  simp [hy0, hy1]
+theorem digitVal_ok (a : Nat) (h : a < 10) : digitVal? (48 + a) = some (a : Int) := by
+  unfold digitVal?
+  rw [if_pos (by omega)]
+  congr 1; omega
+
+theorem num2_ok (a b : Nat) (ha : a < 10) (hb : b < 10) : num2? (48 + a) (48 + b) = some ((a : Int) * 10 + b) := by
+  simp [num2?, digitVal_ok, ha, hb]
+
+theorem parse_shape (y mo d h mi s ms : Nat) (hy : y < 10000) (hmo : mo < 100) (hd : d < 100) (hh : h < 100) (hmi : mi < 100) (hs : s < 100) (hms : ms < 1000) :
+    dateParseISO (Spec.digits 4 y ++ [45] ++ Spec.digits 2 mo ++ [45] ++ Spec.digits 2 d ++ [84] ++ Spec.digits 2 h ++ [58] ++ Spec.digits 2 mi ++ [58]
+        ++ Spec.digits 2 s ++ [46] ++ Spec.digits 3 ms ++ [90]) =
+      (if (mo : Int) ≤ 0 ∨ 12 < (mo : Int) ∨ (h : Int) ≥ 24 ∨ (mi : Int) ≥ 60 ∨ (s : Int) ≥ 60 ∨ (d : Int) < 1 ∨ (d : Int) > goDaysIn mo y then some none
+       else some (some (goUnixMilli (goDate y mo d h mi s ((ms : Int) * 1000000))))) := by
+  simp only [Spec.digits, List.nil_append, List.cons_append]
+  unfold dateParseISO
+  simp only []
+  rw [num2_ok _ _ (by omega) (by omega), num2_ok _ _ (by omega) (by omega), num2_ok _ _ (by omega) (by omega), num2_ok _ _ (by omega) (by omega),
+      num2_ok _ _ (by omega) (by omega), num2_ok _ _ (by omega) (by omega), num2_ok _ _ (by omega) (by omega), num2_ok _ _ (by omega) (by omega),
+      digitVal_ok _ (by omega)]
+  simp only []
+  have e2 : ∀ n : Nat, n < 100 → ((n / 10 % 10 : Nat) : Int) * 10 + ((n % 10 : Nat) : Int) = (n : Int) := by intro n h; omega
+  have ey : (((y / 10 / 10 / 10 % 10 : Nat) : Int) * 10 + ((y / 10 / 10 % 10 : Nat) : Int)) * 100 + (((y / 10 % 10 : Nat) : Int) * 10 + ((y % 10 : Nat) : Int)) = (y : Int) := by omega
+  have ems : ((ms / 10 / 10 % 10 : Nat) : Int) * 100 + (((ms / 10 % 10 : Nat) : Int) * 10 + ((ms % 10 : Nat) : Int)) = (ms : Int) := by omega
+  rw [e2 mo hmo, e2 d hd, e2 h hh, e2 mi hmi, e2 s hs, ey, ems]
+set_option maxRecDepth 100000 in
+theorem date_le_fin : ∀ n : Fin 366, ∀ l : Fin 2, (n.val < 365 + l.val) →
+    (n.val : Int) - Spec.monthStart (monthOf n.val l.val) l.val + 1 ≤
+      (if monthOf n.val l.val + 1 = 2 then (if decide ((l.val : Int) = 1) = true then 29 else 28)
+       else goDaysBefore (monthOf n.val l.val + 1) - goDaysBefore (monthOf n.val l.val + 1 - 1)) := by
+  decide +kernel
+
+theorem date_le_daysIn (t : Int) : Spec.DateFromTime t ≤ goDaysIn (Spec.MonthFromTime t + 1) (Spec.YearFromTime t) := by
+  have hr := dayWithinYear_range t
+  have hl := inLeapYear_01 t
+  rw [dateFromTime_eq, monthFromTime_eq]
+  unfold goDaysIn
+  rw [isLeap_flag]
+  generalize Spec.DayWithinYear t = d at *
+  generalize Spec.InLeapYear t = l at *
+  have hd : d = ((⟨d.toNat, by omega⟩ : Fin 366).val : Int) := by simp; omega
+  have hl' : l = ((⟨l.toNat, by omega⟩ : Fin 2).val : Int) := by simp; omega
+  have := date_le_fin ⟨d.toNat, by omega⟩ ⟨l.toNat, by omega⟩ (by simp; omega)
+  rw [← hd, ← hl'] at this
+  exact this
+
+/-- Date.parse(d.toISOString()) = d.getTime() for every valid date with a four-digit year -/
+theorem iso_roundtrip (t : Int) (hy0 : 0 ≤ Spec.YearFromTime t) (hy1 : Spec.YearFromTime t ≤ 9999) :
+    dateParseISO (goFormatISO (stateTime t)) = some (some t) := by
+  rw [iso_format_eq t hy0 hy1]
+  obtain ⟨hm, hdt, _, hh, hmi, hs, hms⟩ := field_ranges t
+  have hdi := date_le_daysIn t
+  unfold Spec.isoString
+  simp only [hy0, hy1, and_self, if_true]
+  rw [parse_shape _ _ _ _ _ _ _ (by omega) (by omega) (by omega) (by omega) (by omega) (by omega) (by omega)]
+  rw [show ((Spec.YearFromTime t).toNat : Int) = Spec.YearFromTime t by omega,
+      show (((Spec.MonthFromTime t + 1).toNat : Nat) : Int) = Spec.MonthFromTime t + 1 by omega,
+      show ((Spec.DateFromTime t).toNat : Int) = Spec.DateFromTime t by omega,
+      show ((Spec.HourFromTime t).toNat : Int) = Spec.HourFromTime t by omega,
+      show ((Spec.MinFromTime t).toNat : Int) = Spec.MinFromTime t by omega,
+      show ((Spec.SecFromTime t).toNat : Int) = Spec.SecFromTime t by omega,
+      show ((Spec.msFromTime t).toNat : Int) = Spec.msFromTime t by omega]
+  rw [if_neg (by omega), make_compose, makeDay_roundtrip, makeTime_roundtrip, makeDate_roundtrip]
+
 end OttoVerif.C12.Lem
